@@ -472,6 +472,32 @@ func c17RunGetSCTs(sc *c17Scenario, groups ctpolicy.LogPolicyData, start time.Ti
 
 func c17Ms(d time.Duration) int64 { return int64(d / time.Millisecond) }
 
+// c17FailedGroups reads the group names out of completenessError's text and renders them as " n id…" (sorted ids).
+func c17FailedGroups(err error, gid map[string]int) string {
+	if err == nil {
+		return " 0"
+	}
+	const pre, suf = "log-group(s) ", " didn't receive enough SCTs"
+	t := err.Error()
+	if !strings.HasPrefix(t, pre) || !strings.HasSuffix(t, suf) {
+		return " 0"
+	}
+	var ids []int
+	for _, n := range strings.Split(t[len(pre):len(t)-len(suf)], ", ") {
+		id, ok := gid[n]
+		if !ok {
+			id = 999
+		}
+		ids = append(ids, id)
+	}
+	sort.Ints(ids)
+	out := fmt.Sprintf(" %d", len(ids))
+	for _, i := range ids {
+		out += fmt.Sprintf(" %d", i)
+	}
+	return out
+}
+
 func c17RaceLine(sc *c17Scenario, res *c17Result) string {
 	c := sc.cfg
 	var sb strings.Builder
@@ -495,7 +521,7 @@ func c17RaceLine(sc *c17Scenario, res *c17Result) string {
 		set[a.LogURL] = true
 	}
 	ids := c.sortedIDs(set)
-	fmt.Fprintf(&sb, " D %d R %d %s %d", c17Ms(sc.deadline), c17Ms(res.retAt), verifkit.B(res.err != nil), len(ids))
+	fmt.Fprintf(&sb, " D %d R %d %s%s %d", c17Ms(sc.deadline), c17Ms(res.retAt), verifkit.B(res.err != nil), c17FailedGroups(res.err, c.gid), len(ids))
 	for _, i := range ids {
 		fmt.Fprintf(&sb, " %d", i)
 	}
